@@ -3,7 +3,7 @@ impl  = the real ELFFile.has_dwarf_info / get_dwarf_info / get_dwarf_link on Byt
 model = extracted Model/C11Elf.v + Model/C11Dwarf.v (zlib answers and the file system handed over as tables);
 spec  = extracted Spec/C11Container.v (debug_view of the ORIGINAL file for every re-encoding, presence formula,
         CRC-32 by polynomial division, the framing encoders that produce every section body used here)."""
-import hashlib, io, os, shutil, tempfile, zlib
+import hashlib, io, os, shutil, struct, tempfile, zlib
 from concurrent.futures import ThreadPoolExecutor
 from tools.lib import framework
 from tools.harness import c11_util as U
@@ -55,7 +55,8 @@ LEVEL = {'text': 'Machine-checked, 28 theorems closed under the global context, 
 RULE = ('cases: every seed object under seeds/c11 and every ELF under test/testfiles_for_unittests, plain and re-encoded '
         '(gABI and legacy framing built by the Coq encoders at zlib levels 0-9, all/some/only-shrinking sections; objcopy '
         'zlib / zlib-gnu / only-keep-debug + debuglink variants; debug links with right and wrong CRC, with and without a '
-        'loader, follow_links on/off; .gnu_debugaltlink / .debug_sup; two-hop chains debug link -> supplementary link (own builders and the '
+        'loader, follow_links on/off; .gnu_debugaltlink / .debug_sup; call sequences on one ELFFile object (each answer = the stateless view of its own flags); pairs carrying the '
+        'same NT_GNU_BUILD_ID note with per-byte CRC corruptions and payload modifications; two-hop chains debug link -> supplementary link (own builders and the '
         'dwz-produced test files whose DIEs use the alt/sup forms); keep-debug = unobserved sections made SHT_NOBITS), presence truth table over all subsets of {.debug_info, .zdebug_info, '
         '.eh_frame, .gnu_debuglink, .gnu_debugaltlink, .debug_sup} x strict x loader x class x byte order on section-only files, '
         'synthetic images in all class/byte-order '
@@ -228,8 +229,9 @@ def _slots_of(di, captured):
     return out
 
 
-def impl_view(img, fs, relocate, follow):
-    """[cfg, slots, sup] or ['err', class]; relocations are observed, not performed"""
+def impl_view(img, fs, relocate, follow, elffile=None):
+    """[cfg, slots, sup] or ['err', class]; relocations are observed, not performed.  With `elffile` the call is made
+    on that (already used) ELFFile object instead of a fresh one"""
     from elftools.elf.elffile import ELFFile
     from elftools.elf.relocation import RelocationHandler
     captured = {}
@@ -243,7 +245,7 @@ def impl_view(img, fs, relocate, follow):
         captured[id(stream)] = (idx, stream.getvalue())
     RelocationHandler.apply_section_relocations = spy
     try:
-        e = ELFFile(io.BytesIO(img), _loader_of(fs))
+        e = elffile if elffile is not None else ELFFile(io.BytesIO(img), _loader_of(fs))
         di = e.get_dwarf_info(relocate_dwarf_sections=relocate, follow_links=follow)
         cfg = [int(di.config.little_endian), di.config.default_address_size, di.config.machine_arch]
         sup = 'none'
@@ -260,10 +262,10 @@ def impl_view(img, fs, relocate, follow):
         RelocationHandler.apply_section_relocations = orig
 
 
-def impl_dump(img, fs, follow=True, eh=True):
+def impl_dump(img, fs, follow=True, eh=True, elffile=None):
     from elftools.elf.elffile import ELFFile
     try:
-        e = ELFFile(io.BytesIO(img), _loader_of(fs))
+        e = elffile if elffile is not None else ELFFile(io.BytesIO(img), _loader_of(fs))
         di = e.get_dwarf_info(follow_links=follow)
         h, c = U.full_dump(di, eh=eh)
         return [h, c['cus'], c['dies'], c['lines'], c['cfi'], c['ehcfi'] if eh else 0, c['tus']]
@@ -369,6 +371,13 @@ def gen(ctx):
         cases.append(('link', [src, 'own', 'right', 1, 2, 'plain']))      # loader without the file
     for k, name in enumerate(seeds):                      # single-bit CRC errors in every byte of the checksum
         cases.append(('link', ['seed:' + name, 'own', 'flip%d' % [31, 24, 16, 8, 0][k % 5], 1, 1, 'plain']))
+    for k, name in enumerate(seeds):                      # pairs carrying the same build-id note: the CRC still decides
+        src = 'seed:' + name
+        cases.append(('link', [src, 'ownid', 'flip%d' % [0, 8, 16, 24, 31, 5, 13, 21, 29][k % 9], 1, 1, 'plain']))
+        cases.append(('link', [src, 'ownid', 'payload', 1, 1, 'plain']))
+        if k % 3 == 0:
+            cases.append(('link', [src, 'ownid', 'right', 1, 1, 'plain']))
+            cases.append(('link', [src, 'ownid', 'wrong', 1, 1, 'plain']))
     cases.append(('link', ['seed:gcc_d5_exe', 'zdbg', 'right', 1, 1, 'plain']))
     cases.append(('link', ['test:debuglink', 'testpair', 'right', 1, 1, 'plain']))
     for name in seeds[:ctx.scale(3, len(seeds))]:
@@ -380,6 +389,17 @@ def gen(ctx):
     for name in tests:
         if name.endswith('.debug') and ('altlink' in name or 'debugsup' in name):      # dwz-produced: alt/sup FORMS in the DIEs
             cases.append(('chain', ['test:' + name, '', '', 'test', rng.getrandbits(32)]))
+    # call sequences on ONE ELFFile object: the answer to a call depends on its own arguments only
+    seqs = [[(1, 1), (1, 0)], [(1, 0), (1, 1)], [(1, 1), (0, 0), (1, 1), (0, 1)], [(0, 0), (1, 1), (1, 0), (0, 1), (0, 0)]]
+    for k in range(0, len(seeds), ctx.scale(3, 1)):
+        a, b = seeds[k], seeds[(k + 3) % len(seeds)]
+        for j, sq in enumerate(seqs[:ctx.scale(2, 4)] if k else seqs):
+            for ld in (1, 0):
+                cases.append(('seq', ['seed:' + a, 'seed:' + b, ['alt', 'sup'][(k + j) % 2], 'own', ld, sq, rng.getrandbits(32)]))
+    for name in tests:
+        if name.endswith('.debug') and ('altlink' in name or 'debugsup' in name):
+            for sq in seqs[:2]:
+                cases.append(('seq', ['test:' + name, '', '', 'test', 1, sq, rng.getrandbits(32)]))
     # supplementary links
     pairs = [(seeds[i], seeds[(i + 5) % len(seeds)]) for i in range(0, len(seeds), ctx.scale(3, 1))]
     for a, b in pairs:
@@ -781,8 +801,14 @@ def h_objcopy(ctx, kind, a):
 
 def h_link(ctx, kind, a):
     src, variant, crcmode, follow, ld, inner = a
-    if variant == 'own':
+    if variant in ('own', 'ownid'):
         elf = _elf(_load(src))
+        if variant == 'ownid':
+            # as real ld --build-id + objcopy output: the SAME NT_GNU_BUILD_ID note in the stripped and the debug file
+            ident = hashlib.sha1(src.encode()).digest()
+            note = struct.pack(('<' if elf.le else '>') + 'III', 4, len(ident), 3) + b'GNU\0' + ident
+            elf = _elf(U.rewrite(elf, add=[dict(name=b'.note.gnu.build-id', type=7, flags=2, addr=0x400200, body=note,
+                                                addralign=4)]))
         dbg = elf.img
         if inner != 'plain':
             B = Builder()
@@ -801,6 +827,8 @@ def h_link(ctx, kind, a):
         (body,) = yield [['debuglink_body', elf.le, name, b'\0' * (3 - len(name) % 4), crc]]
         stripped = strip_debug(elf, body)
         orig = elf.img
+        if crcmode == 'payload':                          # the target modified outside the note, link CRC of the unmodified file
+            dbg = dbg[:9] + bytes([dbg[9] ^ 0x20]) + dbg[10:]
     else:
         if variant == 'objcopy':
             stripped, dbg = _load(src + '.stripped'), _load(src + '.dbg')
@@ -839,7 +867,7 @@ def h_link(ctx, kind, a):
         ((mo2, s_orig),) = yield [_view_req(orig, None, 1, 0, False, tbl_o)]
         o_core = canon_spec(s_orig)
         icore, _ = split_impl(iv)
-        if variant == 'own' and inner == 'plain':
+        if variant in ('own', 'ownid') and inner == 'plain':
             ctx.record('link_data', a, impl=data_slots(icore), spec=data_slots(o_core), model=None, in_domain=o_core != 'rejected',
                        nontrivial=True, key='C11/link-data-differs-from-original')
 
@@ -957,6 +985,51 @@ def h_chain(ctx, kind, a):
     _record_view(ctx, kind, a, iv, m, spec, key='chain-view-differs', in_domain=spec != 'rejected',
                  nontrivial=spec != 'rejected' and spec[2] != 'none')
     ctx.bump('chain_sup', 'loaded' if (spec != 'rejected' and spec[2] != 'none') else 'absent')
+
+
+def h_seq(ctx, kind, a):
+    """several get_dwarf_info calls on the SAME ELFFile object: each answer is the stateless view of its own
+    (relocate, follow_links) — the model and the specification are functions of the arguments only"""
+    from elftools.elf.elffile import ELFFile
+    main_src, sup_src, enc, variant, ld, calls, seed = a
+    rng = _mk_rng(seed)
+    if variant == 'own':
+        main, supimg = _elf(_load(main_src)), _load(sup_src)
+        supname = b'sup/' + bytes(rng.choice(b'abcdefgh') for _ in range(rng.randrange(1, 9))) + b'.sup'
+        ident = bytes(rng.getrandbits(8) for _ in range(20))
+        if enc == 'alt':
+            (lb,) = yield [['altlink_body', supname, ident]]
+            timg = U.rewrite(main, add=[dict(name=b'.gnu_debugaltlink', body=lb)])
+        else:
+            (lb,) = yield [['debugsup_body', main.le, 5, 0, supname, bytes([20]) + ident]]
+            timg = U.rewrite(main, add=[dict(name=b'.debug_sup', body=lb)])
+        fs = {supname: supimg} if ld else None
+    else:
+        timg = _load(main_src)
+        fs = fs_closure(timg, dir_lookup(main_src)) if ld else None
+    try:
+        obj = ELFFile(io.BytesIO(timg), _loader_of(fs))
+    except Exception as ex:                              # noqa
+        raise Skip('not an ELF file: %s' % type(ex).__name__)
+    got, dumps, fresh = [], [], []
+    for rel, fol in calls:
+        got.append(split_impl(impl_view(timg, fs, bool(rel), bool(fol), elffile=obj))[0])
+        if rel:                                          # full dumps use the real relocation code
+            dumps.append(impl_dump(timg, fs, follow=bool(fol), eh=False, elffile=obj))
+            fresh.append(impl_dump(timg, fs, follow=bool(fol), eh=False))
+    ctx.record('seq_dump', a, impl=dumps, spec=fresh, model=None, in_domain=all(f[0] != 'err' for f in fresh),
+               nontrivial=True, key='C11/seq-dump-differs')
+    if any(len(v) > MODEL_MAX for v in list((fs or {}).values()) + [timg]):
+        ctx.bump('model_skipped_large', kind)
+        want = [split_impl(impl_view(timg, fs, bool(rel), bool(fol)))[0] for rel, fol in calls]
+        ctx.record(kind, a, impl=got, spec=want, model=None, in_domain=True, nontrivial=True, key='C11/seq-view-differs')
+        return
+    tbl = yield from _tbl_for([timg] + list((fs or {}).values()))
+    answers = yield [_view_req(timg, fs, rel, fol, bool(ld), tbl) for rel, fol in calls]
+    spec = [canon_spec(s_) for _, s_ in answers]
+    model = [split_model(m_)[0] for m_, _ in answers]
+    ctx.record(kind, a, impl=got, spec=spec, model=model, in_domain=all(x != 'rejected' for x in spec), nontrivial=True,
+               key='C11/seq-view-differs')
 
 
 def h_presence(ctx, kind, a):
@@ -1196,6 +1269,6 @@ def h_linkparse(ctx, kind, a):
     ctx.record(kind, a, impl=impl, spec=spec, model=model, in_domain=complete, nontrivial=True, key='C11/debuglink-parse')
 
 
-HANDLERS = {'plain': h_plain, 'presence_tt': h_presence_tt, 'keepdebug': h_keepdebug, 'chain': h_chain, 'presence_file': h_presence_file, 'gabi': h_reencode, 'zgnu': h_reencode,
+HANDLERS = {'plain': h_plain, 'seq': h_seq, 'presence_tt': h_presence_tt, 'keepdebug': h_keepdebug, 'chain': h_chain, 'presence_file': h_presence_file, 'gabi': h_reencode, 'zgnu': h_reencode,
             'objcopy': h_objcopy, 'link': h_link, 'link_path': h_link_path, 'sup': h_sup, 'presence': h_presence,
             'synth': h_synth, 'zbad': h_bad, 'gbad': h_bad, 'crc': h_crc, 'crc_rand': h_crc, 'linkparse': h_linkparse}
